@@ -1011,6 +1011,13 @@ class FunctionAnalysis:
                 r = self.apply_summary(fi, args, star, kwargs, node, self_av=recv)
                 out = r if out is None else out.join(r)
             return out
+        inplace_kw = next((k for k in node.keywords if k.arg == 'inplace'), None)
+        if name == 'byteswap' and (node.args or inplace_kw is not None):
+            # ndarray.byteswap(inplace=True) (also positional) rewrites the buffer; a non-constant flag may
+            flag = inplace_kw.value if inplace_kw is not None else node.args[0]
+            if not (isinstance(flag, ast.Constant) and flag.value is False):
+                self.mutate(recv, node, 'ndarray.byteswap(inplace=True)')
+                return AV(recv.cont, recv.elem)
         if name in MUTATOR_METHODS:
             self.mutate(recv, node, f'mutator method .{name}()')
             if name in ('pop', 'popitem', 'setdefault'):
